@@ -156,7 +156,7 @@ func execute(c *Case, dir string) (r run) {
 				r.violation = fmt.Sprintf("step %d: %s", si, v)
 				return
 			}
-		case "transition-create", "transition-remove":
+		case "transition-create", "transition-remove", "transition-remove-partial":
 			mu.Lock()
 			// Transitions need a preceding scan.
 			if v := scanLocked(); v != "" {
@@ -178,6 +178,12 @@ func execute(c *Case, dir string) (r run) {
 					continue
 				}
 				ch = &core.Change{Path: st.Name, Old: old}
+				if st.Op == "transition-remove-partial" && old.Kind == tree.KDir {
+					// Content the plan does not know about appears after the
+					// scan: the removal can only be partial.
+					os.WriteFile(filepath.Join(full, "intruder"), []byte("created after the scan"), 0o644)
+					r.classes = append(r.classes, "partial-directory-removal")
+				}
 			}
 			results, _, _, err := ep.Transition(ctx, []*core.Change{ch})
 			if err != nil {
@@ -293,7 +299,7 @@ func drawCase(rt *rapid.T, allowReversal bool) *Case {
 	c.Steps = append(c.Steps, &Step{Op: "sleep", Ms: rapid.SampledFrom([]int{50, 300, 1100}).Draw(rt, "warmup")})
 	for n := rapid.IntRange(2, 5).Draw(rt, "blocks"); n > 0; n-- {
 		name := rapid.SampledFrom(names).Draw(rt, "name")
-		kinds := []string{"external", "transition", "transition-then-external-other", "slow-transition"}
+		kinds := []string{"external", "transition", "transition-then-external-other", "slow-transition", "partial-removal"}
 		if allowReversal {
 			kinds = append(kinds, "transition-then-reversal", "transition-then-reversal", "two-transitions-then-reversal", "two-transitions-then-reversal")
 		}
@@ -302,6 +308,11 @@ func drawCase(rt *rapid.T, allowReversal bool) *Case {
 			c.Steps = append(c.Steps, &Step{Op: rapid.SampledFrom([]string{"external-create", "external-remove"}).Draw(rt, "ext"), Name: name})
 		case "transition":
 			c.Steps = append(c.Steps, &Step{Op: rapid.SampledFrom([]string{"transition-create", "transition-remove"}).Draw(rt, "tr"), Name: name})
+		case "partial-removal":
+			// A directory removal that can only remove part of the directory
+			// (unknown content appeared after the scan), scanned right after.
+			c.Steps = append(c.Steps, &Step{Op: "external-create", Name: name}, &Step{Op: "expect-poll"},
+				&Step{Op: "transition-remove-partial", Name: name}, &Step{Op: "scan"})
 		case "slow-transition":
 			// A transition that takes longer than a polling interval (its
 			// directory creation is delayed through the filesystem hook), so
@@ -361,7 +372,7 @@ func TestPollHistories(t *testing.T) {
 	if ev.ReplayPath() != "" {
 		t.Skip()
 	}
-	rec := ev.New(t, prop, "poll-histories", "rapid: a real local endpoint with a 1 s polling interval (force-poll, or portable = poll + non-recursive watcher) and a background Poll loop; 2-5 blocks of: external create/remove, transition create/remove (each followed by an immediate scan that must equal an independent walk of the disk), transition followed by an external edit elsewhere, a transition delayed past a polling interval (through the filesystem hook) and scanned right after, transition followed - after the post-transition scan - by an external exact reversal; a stand-in controller scans after every poll notification; after each block its belief (last scan result, updated by its own transition results) must equal the disk within 2 intervals + 1.5 s (re-executed three times before reporting), and a foreground scan must then equal an independent walk; non-trivial: the history contains transition -> scan -> exact reversal")
+	rec := ev.New(t, prop, "poll-histories", "rapid: a real local endpoint with a 1 s polling interval (force-poll, or portable = poll + non-recursive watcher) and a background Poll loop; 2-5 blocks of: external create/remove, transition create/remove (each followed by an immediate scan that must equal an independent walk of the disk), transition followed by an external edit elsewhere, a directory removal made partial by content that appears after the scan (scanned right after), a transition delayed past a polling interval (through the filesystem hook) and scanned right after, transition followed - after the post-transition scan - by an external exact reversal; a stand-in controller scans after every poll notification; after each block its belief (last scan result, updated by its own transition results) must equal the disk within 2 intervals + 1.5 s (re-executed three times before reporting), and a foreground scan must then equal an independent walk; non-trivial: the history contains transition -> scan -> exact reversal")
 	base := t.TempDir()
 	env, err := sess.NewEnv(filepath.Join(base, "data"))
 	if err != nil {
